@@ -349,6 +349,103 @@ func c12Public(t *testing.T, out *vfh.Out, own, got *ndp.RouterAdvertisement) bo
 	return true
 }
 
+// c12Live: "the RA CoreRAD would send at that moment" is the own side of the comparison.  The
+// advertiser's RA depends on live state (a `::/64` wildcard over an injected address list, a
+// deprecated prefix counting down on an injected clock); it transmits an RA, the state changes,
+// another router's RA arrives.  The reports must be those of verifyRAs(RA built from the state AT
+// RECEIPT, received RA) — the case line carries that RA, built by config.Interface.RouterAdvertisement
+// after the call.
+func c12Live(t *testing.T, r *vfh.Rand, out *vfh.Out) {
+	pool := []netip.Prefix{netip.MustParsePrefix("2001:db8:0:1::9/64"), netip.MustParsePrefix("2001:db8:0:2::9/64"),
+		netip.MustParsePrefix("fd00::9/64"), netip.MustParsePrefix("2001:db8:0:7::9/64")}
+	pick := func() []system.IP {
+		var l []system.IP
+		for _, p := range pool {
+			if r.Bool() {
+				l = append(l, system.IP{Address: p})
+			}
+		}
+		return l
+	}
+	epoch := time.Unix(1700000000, 0)
+	now := epoch
+	var addrs []system.IP
+	wild := &plugin.Prefix{Auto: true, Prefix: netip.MustParsePrefix("::/64"), OnLink: true, Autonomous: true,
+		ValidLifetime: 2 * time.Hour, PreferredLifetime: time.Hour,
+		Addrs: func() ([]system.IP, error) { return addrs, nil }}
+	dep := &plugin.Prefix{Prefix: netip.MustParsePrefix("2001:db8:dead::/64"), OnLink: true, Autonomous: true,
+		ValidLifetime: 2 * time.Hour, PreferredLifetime: time.Hour, Deprecated: true, Epoch: epoch,
+		TimeNow: func() time.Time { return now }}
+	ifi := config.Interface{Name: "vf0", Advertise: true, HopLimit: 64, DefaultLifetime: 1800 * time.Second,
+		MinInterval: 200 * time.Second, MaxInterval: 600 * time.Second, Preference: ndp.Medium}
+	if r.Bool() {
+		ifi.Plugins = append(ifi.Plugins, wild)
+	}
+	if r.Bool() || len(ifi.Plugins) == 0 {
+		ifi.Plugins = append(ifi.Plugins, dep)
+	}
+	mem := metricslite.NewMemory()
+	state := system.TestState{Forwarding: true}
+	mm := NewMetrics(mem, "v", time.Time{}, state, []config.Interface{ifi})
+	a := NewAdvertiser(NewContext(nil, mm, state), ifi, nil, nil, func() bool { return false })
+	hooks := 0
+	a.OnInconsistentRA = func(ours, theirs *ndp.RouterAdvertisement) { hooks++ }
+
+	// 0..2 transmissions under earlier states
+	conn := newVfConn()
+	for k := r.Intn(3); k > 0; k-- {
+		addrs = pick()
+		now = now.Add(time.Duration(r.Range(0, int64(40*time.Minute))))
+		if err := a.send(conn, vfAllNodes, ifi); err != nil {
+			t.Fatalf("send: %v", err)
+		}
+	}
+	// the state at receipt
+	addrs = pick()
+	now = now.Add(time.Duration(r.Range(0, int64(50*time.Minute))))
+	own, _, err := ifi.RouterAdvertisement(true)
+	if err != nil {
+		t.Fatalf("RouterAdvertisement: %v", err)
+	}
+	var got *ndp.RouterAdvertisement
+	switch r.Intn(3) {
+	case 0: // a twin of the present moment
+		got, _, _ = ifi.RouterAdvertisement(true)
+	default:
+		got = c12Mutate(r, own)
+	}
+	if rt, ok := c12RoundTrip(got); ok && r.Bool() {
+		got = rt
+	}
+	ip, err := a.handle(got, netip.MustParseAddr("fe80::2"))
+	if err != nil || ip.IsValid() {
+		t.Fatalf("handle(RA) = %v, %v", ip, err)
+	}
+	var cps []c12Problem
+	series, _ := mm.Series()
+	for name, s := range series {
+		if name != advInconsistencies {
+			continue
+		}
+		for lbl, v := range s.Samples {
+			kv := map[string]string{}
+			for _, part := range strings.Split(lbl, ",") {
+				if i := strings.Index(part, "="); i >= 0 {
+					kv[part[:i]] = part[i+1:]
+				}
+			}
+			f, ok := c12Fields[kv["field"]]
+			if !ok {
+				f = 99
+			}
+			for k := 0; k < int(v); k++ {
+				cps = append(cps, c12Problem{f, kv["details"]})
+			}
+		}
+	}
+	c12Emit(out, own, got, hooks >= 1, cps, c12CIDRs(own, got))
+}
+
 func c12RoundTrip(ra *ndp.RouterAdvertisement) (*ndp.RouterAdvertisement, bool) {
 	b, err := ndp.MarshalMessage(ra)
 	if err != nil {
@@ -363,6 +460,9 @@ func c12RoundTrip(ra *ndp.RouterAdvertisement) (*ndp.RouterAdvertisement, bool) 
 }
 
 func verifC12(t *testing.T, r *vfh.Rand, out *vfh.Out) {
+	for k := vfh.N(600, 15000); k > 0; k-- {
+		c12Live(t, r, out)
+	}
 	n := vfh.N(6000, 150000)
 	for k := 0; k < n; k++ {
 		own := c12GenRA(r)
